@@ -21,7 +21,7 @@ def _with_rule(task):
 # ---- part 2: whatever fits on one line is printed on one line (pformat level)
 
 from crosshair.tracers import NoTracing
-from vf import pfbase, gen_values
+from vf import pfbase, gen_values, stubs
 from vf.pfbase import SLine
 
 
@@ -92,7 +92,54 @@ class OneLineValue(pfbase.CfgCase):
         return True
 
 
+class OneLineRelayout(pfbase.CfgCase):
+    """The document of a value is built once (pretty_python_value) and laid out
+    at a narrow width first; laying the same object out again at any width and
+    ribbon >= L still gives the one line."""
+
+    def __init__(self, params):
+        super().__init__(params)
+        from prettyprinter.layout import layout_smart, layout_fast
+        from prettyprinter.render import default_render_to_str
+        self.src = params['value']
+        self.value = gen_values.make_value(self.src)
+        self.ref = pfbase.native_pformat(self.value, 10 ** 6, 10 ** 6)
+        self.L = len(self.ref)
+        self.layout = layout_smart if params.get('smart', True) else layout_fast
+        self.render = default_render_to_str
+        self.narrow = params.get('narrow', 12)
+
+    def pre(self, w, rw):
+        if '\n' in self.ref:
+            return w == 1 and rw == 1
+        return self.L <= w and w <= max(pfbase.MAXW, self.L + 2) and rw == w
+
+    def make_doc(self):
+        PP = pfbase.PP
+        return PP.pretty_python_value(self.value, ctx=PP.PrettyContext(
+            indent=4, depth_left=float('inf'), visited=set(), max_seq_len=1000,
+            sort_dict_keys=False))
+
+    def run(self, w, rw):
+        if '\n' in self.ref:
+            return True
+        with NoTracing():
+            doc = self.make_doc()
+            list(self.layout(doc, width=self.narrow, ribbon_frac=1.0))
+        frac = 1.0 if self.native else stubs.Frac(w, w)
+        out = list(self.layout(doc, width=w, ribbon_frac=frac))
+        with NoTracing():
+            text = self.render(out)
+        if text != self.ref:
+            return self.fail('C06:fits-on-one-line-but-broken',
+                             lambda: 'value=%s L=%d: the same document object laid out at width %d first, '
+                                     'then at w=%r (ribbon_frac 1.0)\noutput:\n%s' % (
+                                         self.src, self.L, self.narrow, w, text))
+        return True
+
+
 FAMILIES = dict(c05.FAMILIES)
+FAMILIES['oneline-relayout'] = pfbase.cfg_family('oneline-relayout', OneLineRelayout)
 FAMILIES['oneline'] = pfbase.atoms_family('oneline', OneLineAtoms)
 FAMILIES['oneline-value'] = pfbase.cfg_family('oneline-value', OneLineValue)
 
@@ -126,6 +173,15 @@ def cases(tier, seed):
     for name, src in corpus[::step]:
         out.append({'name': 'oneline-value:%s' % name, 'family': 'oneline-value',
                     'params': {'value': src}, 'budget': 60.0})
+    # the same document object laid out twice
+    rel = ["'hello brave new world'", "['lorem ipsum dolor', 'sit amet']",
+           "{'key': 'some words in a value'}", "('alpha beta gamma delta', 1)",
+           "[b'bytes with some words', 2]", "{'a': [1, 2, 3], 'b': (4, 5)}"]
+    for j, src in enumerate(rel if tier != 'quick' else rel[:5]):
+        for smart in (True, False):
+            out.append({'name': 'oneline-relayout:%s:%s' % ('smart' if smart else 'fast', src),
+                        'family': 'oneline-relayout', 'params': {'value': src, 'smart': smart},
+                        'budget': 60.0, 'twin': j == 0 and smart})
     # long one-line values: the lookahead of the outermost group walks the
     # whole value (hundreds to thousands of documents)
     for rows in ((3,) if tier == 'quick' else (2, 5, 8)):
